@@ -1,5 +1,5 @@
 # replay of a bounded stand-in violation (C15): re-run native/c15_hbar.py
 import sys
-print('gaussian X-Z-P: parity at hbar=2.0 is [0.6554], at hbar=0.5 it is [0.16385]')
+print('gaussian state (2 mode(s)) created at hbar=0.7: mean_photon answers differently after the global sf.hbar was set to another value ([(0.0708+0j), (0.15069+0j)] -> [(-0.37892+0j), (0.15069+0j)])')
 print('REPLAY-VIOLATION')
 sys.exit(1)
